@@ -80,6 +80,16 @@ func Deadline(def time.Duration) time.Time {
 
 var procStart = time.Now()
 
+// Share gives part i of n parts that run one after the other under a common deadline its fair share of the time that
+// is left: without it the first parts of a test use the whole budget on their deepest level and the last ones starve.
+func Share(deadline time.Time, i, n int) time.Time {
+	rem := time.Until(deadline)
+	if rem <= 0 || n-i <= 1 {
+		return deadline
+	}
+	return time.Now().Add(rem / time.Duration(n-i))
+}
+
 func New(property, part string) *Report {
 	i, n := Shard()
 	return &Report{Property: property, Part: part, Tier: Tier(), Shard: i, NShards: n, start: time.Now(), keys: map[uint64]struct{}{}, Extra: map[string]any{}}
